@@ -362,7 +362,8 @@ def explore_program(item):
     return uniq, dict(cnt)
 
 
-UOD_KINDS = ("L", "L2", "A", "B", "C", "Boom", "I")
+UOD_KINDS = ("L", "L2", "A", "B", "C", "Boom", "I", "FB")
+KINDS_FB = ["FB", "L", "A", "M", "W1"]      # a command whose finalizer raises
 KINDS_OVC = ["B", "C", "WaI", "M"]      # OvB sits in a second overlap list with OvC
 
 
@@ -388,6 +389,8 @@ def corpus(ctx):
         add(KINDS, 3, X_DEV, dev_if=set(pgen.forests(KINDS3, 3, 2)))
         add(KINDS_OVC, 2, X_DEV)
         add(KINDS_OVC, 3, X_DEV)
+        for n in (1, 2, 3):
+            add(KINDS_FB, n, X_DEV if n < 3 else (), only={f for f in pgen.forests(KINDS_FB, n, 0) if "FB" in pgen.kinds_flat(f)})
         bounds = (f"<=3 statements over {KINDS}, In1 rising before every tick of {X_ALL} for programs with a Watch; one deviation at "
                   f"every tick 1..{T_DEV} for <=2 statements and for 3 statements over {KINDS3}, with In1 rising before tick {X_DEV}")
     else:
@@ -399,10 +402,12 @@ def corpus(ctx):
         add(KINDS4, 4, X_DEV)
         for n in (2, 3, 4):
             add(KINDS_OVC, n, X_ALL if n < 4 else X_DEV)
+        for n in (1, 2, 3):
+            add(KINDS_FB, n, X_DEV, only={f for f in pgen.forests(KINDS_FB, n, 0) if "FB" in pgen.kinds_flat(f)})
         bounds = (f"<=3 statements over {KINDS} and 4 statements over {KINDS4}, In1 rising before every tick of {X_ALL} for programs "
                   f"with a Watch; one deviation at every tick 1..{T_DEV} (<=2 statements: every In1 tick; 3: ticks 0,3,5,7; 4: {X_DEV}); "
                   f"two deviations for <=2 statements over {KINDS4} (In1 rising before tick {X_DEV})")
-    return items, bounds + f"; programs with OvB and OvC (second overlap list) over {KINDS_OVC} up to 3 (thorough 4) statements; openers with empty body excluded; programs without any UOD command excluded"
+    return items, bounds + f"; programs with FinBoom (finalizer raises) over {KINDS_FB} up to 3 statements; programs with OvB and OvC (second overlap list) over {KINDS_OVC} up to 3 (thorough 4) statements; openers with empty body excluded; programs without any UOD command excluded"
 
 
 CLASSES = ["class:requests-in-same-tick", "class:request-while-older-alive:adjacent-tick", "class:request-while-older-alive:far-apart",
